@@ -1,7 +1,21 @@
 package main
 
 // Replay of solver counterexamples against the real code (DESIGN §6):
-// templates are Go test files injected in-package with `go test -overlay`.
+// templates (/verif/replay/*.go.tmpl) are Go test files injected in-package with
+// `go test -overlay` — /repo is not written. A replay "confirms" a violation when
+// the generated test FAILS on the real code with the counterexample's values.
+
+import (
+	"encoding/json"
+	"fmt"
+	"os"
+	"os/exec"
+	"path/filepath"
+	"regexp"
+	"strconv"
+	"strings"
+	"time"
+)
 
 type replayTemplate struct {
 	name  string
@@ -9,7 +23,50 @@ type replayTemplate struct {
 	run   func(g *Gen, o *Obligation, model map[string]string) (bool, string)
 }
 
-var replayTemplates []*replayTemplate
+var replayDir = "/verif/replay"
+
+var replayTemplates = []*replayTemplate{
+	{
+		name: "ttl_words.go.tmpl",
+		match: func(o *Obligation) bool {
+			return regexp.MustCompile(`^site:\(\*protocol/(rep|xrep|respondent|xrespondent)\.pipe\)\.receiver:`).MatchString(o.Name)
+		},
+		run: func(g *Gen, o *Obligation, model map[string]string) (bool, string) {
+			pkg := regexp.MustCompile(`protocol/(\w+)\.pipe`).FindStringSubmatch(o.Name)[1]
+			ttl := modelInt(model, "ttl", -1)
+			if ttl < 1 || ttl > 255 {
+				// cooked receivers read s.ttl; fall back to the hop counter the model chose
+				ttl = modelInt(model, "hops", 1)
+				if ttl < 1 || ttl > 255 {
+					ttl = 1
+				}
+			}
+			return runReplay("protocol/"+pkg, "ttl_words.go.tmpl", map[string]string{"PKG": pkg, "TTL": fmt.Sprint(ttl)}, "TestZZReplayTTL")
+		},
+	},
+	{
+		name: "macat_print.go.tmpl",
+		match: func(o *Obligation) bool {
+			return strings.HasPrefix(o.Name, "site:(*macat.App).printMsg:")
+		},
+		run: func(g *Gen, o *Obligation, model map[string]string) (bool, string) {
+			n := modelInt(model, "len(Body)", -1)
+			if n < 0 {
+				n = modelInt(model, "len(msg.Body)", 3)
+			}
+			return runReplay("macat", "macat_print.go.tmpl", map[string]string{"LEN": fmt.Sprint(n), "BYTE": fmt.Sprint(modelInt(model, "byte", 0xa1))}, "TestZZReplayPrint")
+		},
+	},
+}
+
+func modelInt(m map[string]string, k string, def int) int {
+	if v, ok := m[k]; ok {
+		if n, err := strconv.Atoi(strings.TrimSpace(v)); err == nil {
+			return n
+		}
+	}
+	return def
+}
 
 func findReplay(o *Obligation) *replayTemplate {
 	for _, r := range replayTemplates {
@@ -18,4 +75,50 @@ func findReplay(o *Obligation) *replayTemplate {
 		}
 	}
 	return nil
+}
+
+// runReplay instantiates a template and runs it in-package through an overlay.
+// Returns (test failed = violation reproduced, output).
+func runReplay(pkgDir, tmpl string, subst map[string]string, test string) (bool, string) {
+	src, err := os.ReadFile(filepath.Join(replayDir, tmpl))
+	if err != nil {
+		return false, "template missing: " + err.Error()
+	}
+	text := string(src)
+	for k, v := range subst {
+		text = strings.ReplaceAll(text, "{{"+k+"}}", v)
+	}
+	work, err := os.MkdirTemp("/verif/out", "replay-")
+	if err != nil {
+		os.MkdirAll("/verif/out", 0o755)
+		work, err = os.MkdirTemp("/verif/out", "replay-")
+		if err != nil {
+			return false, err.Error()
+		}
+	}
+	defer os.RemoveAll(work)
+	tf := filepath.Join(work, "zz_replay_test.go")
+	os.WriteFile(tf, []byte(text), 0o644)
+	ov := map[string]map[string]string{"Replace": {filepath.Join("/repo", pkgDir, "zz_replay_test.go"): tf}}
+	ob, _ := json.Marshal(ov)
+	of := filepath.Join(work, "overlay.json")
+	os.WriteFile(of, ob, 0o644)
+	cmd := exec.Command("go", "test", "-overlay", of, "-vet=off", "-count=1", "-timeout", "60s", "-run", "^"+test+"$", "./"+pkgDir)
+	cmd.Dir = "/repo"
+	cmd.Env = append(os.Environ(), "GOFLAGS=-mod=mod", "GOPROXY=off", "GOSUMDB=off", "GOTOOLCHAIN=local")
+	done := make(chan struct{})
+	var out []byte
+	go func() { out, err = cmd.CombinedOutput(); close(done) }()
+	select {
+	case <-done:
+	case <-time.After(120 * time.Second):
+		cmd.Process.Kill()
+		return false, "replay timed out"
+	}
+	s := string(out)
+	if len(s) > 4000 {
+		s = s[:4000]
+	}
+	failed := err != nil && strings.Contains(s, "--- FAIL")
+	return failed, s
 }
